@@ -153,8 +153,15 @@ def run(ck):
         if any(outcome(k, 0)[1] is False for k in ks[:-1]):
             nontriv.add(tuple(ks))
     # one process runs every file (each file is compiled and run on its own by `ego test`)
-    rc, out = vf.sh([ego, "test"] + paths, env=env, cwd=ck.work, timeout=900)
-    allev, grand_total = parse_output(out)
+    # `ego test` takes a limited number of file arguments: run the files in chunks of 50 (each file is compiled
+    # and run on its own anyway) and add the summaries up
+    out, allev, grand_total = "", [], 0
+    for k in range(0, len(paths), 50):
+        rc, o = vf.sh([ego, "test"] + paths[k:k + 50], env=env, cwd=ck.work, timeout=900)
+        ev, tot = parse_output(o)
+        out += o + "\n"
+        allev += ev
+        grand_total = None if (grand_total is None or tot is None) else grand_total + tot
     if "panic:" in out or ("goroutine " in out and "runtime." in out):
         ck.violation("ego-test-go-panic", "`ego test` died with a Go panic", replay={"files": [c["kinds"] for c in cases], "output": out[-2000:]})
     j = 0
@@ -224,12 +231,18 @@ def run(ck):
         oc = "fun n => " + " ".join("if n =? %d then %s else" % (c["base"] + i + 1, outcome(k, c["base"] + i + 1)[0]) for i, k in enumerate(ks)) + " CompFail"
         tk = "[" + ";".join(toks(c["src"])) + "]"
         cs.append("(%s, (%s), %s)" % (tk, oc, vf.vN(c["events"])))
-    defs.append("Definition cases := [\n%s\n]." % ";\n".join(cs))
-    ok, r = vf.coq_eval(GROUP, ck.work, "cases", "\n".join(defs), {
-        "MISM": "idx 0 cases", "COUNT": "[fold_left N.add (map (fun c => snd (model (fst (fst c)) (snd (fst c)))) cases) 0]"})
-    if not ok:
-        ck.violation("correspondence-eval", "model evaluation failed:\n" + r[-1500:], replay={"log": r[-3000:]}, found_input=False)
-        return
+    head = list(defs)
+    mism, count = [], 0
+    for k in range(0, len(cs), 60):
+        part = head + ["Definition cases := [\n%s\n]." % ";\n".join(cs[k:k + 60])]
+        ok, r = vf.coq_eval(GROUP, ck.work, "cases%d" % k, "\n".join(part), {
+            "MISM": "idx 0 cases", "COUNT": "[fold_left N.add (map (fun c => snd (model (fst (fst c)) (snd (fst c)))) cases) 0]"})
+        if not ok:
+            ck.violation("correspondence-eval", "model evaluation failed:\n" + r[-1500:], replay={"log": r[-3000:]}, found_input=False)
+            return
+        mism += [k + i for i in r["MISM"]]
+        count += r["COUNT"][0] if r["COUNT"] else 0
+    r = {"MISM": mism, "COUNT": [count]}
     ck.cov["traces_validated_against_impl"] = len(cases)
     if not any(v["signature"] not in ("unbalanced-brace-swallows-later-tests",) for v in ck.viol):
         if r["COUNT"] != [grand_total if grand_total is not None else -1]:
